@@ -399,3 +399,6 @@ func (c *Counter) Sum() int64 {
 	}
 	return s
 }
+
+// AtomicAdd adds to a shared counter.
+func AtomicAdd(p *int64, d int64) { atomic.AddInt64(p, d) }
